@@ -39,18 +39,18 @@ func init() {
 }
 
 type wval struct {
-	kind   string // str mailbox flag attr num num64 modseq set nil lit list
-	s      string
-	n      int64
-	u      uint64
-	uidSet bool
-	ranges [][2]uint32 // for set: as added through AddRange / AddNum (0 = "*")
+	kind      string // str mailbox flag attr num num64 modseq set nil lit list
+	s         string
+	n         int64
+	u         uint64
+	uidSet    bool
+	ranges    [][2]uint32 // for set: as added through AddRange / AddNum (0 = "*")
 	searchRes bool
-	items  []wval
-	depth  int // list: extra nesting levels around items
-	dec    int // decoder entry point for strings
-	chunk  int
-	bad    bool // the encoder must refuse this value
+	items     []wval
+	depth     int // list: extra nesting levels around items
+	dec       int // decoder entry point for strings
+	chunk     int
+	bad       bool // the encoder must refuse this value
 }
 
 var c01alphabet = []string{"a", "B", "z", " ", "\x00", "\r", "\n", "\r\n", "\"", "\\", "{", "}", "(", ")", "%", "*", "]", "\x7f", "\x01", "é", "日本", "😀", "\xff", "\xc3", "\x80", "&", "-", "~", "{3}", "{3+}", "NIL"}
@@ -378,9 +378,9 @@ func c01encode(enc *vb.Encoder, v *wval) {
 }
 
 type c01decoder struct {
-	r       *R
-	dec     *vb.Decoder
-	contOut io.Writer // where "+" goes (decoder on the server side), nil on the client side
+	r        *R
+	dec      *vb.Decoder
+	contOut  io.Writer // where "+" goes (decoder on the server side), nil on the client side
 	compared int
 }
 
